@@ -366,6 +366,12 @@ pub fn trees(max: usize, base: u8) -> Vec<(Shape, Vec<Option<u8>>)> {
                     // shapes overlap, the datum that arrives differs from the one there only by a trailing 00
                     out.push((s.clone(), (0..n).map(|i| if mask >> i & 1 == 1 { Some(if base < 110 { 200 + i as u8 } else { 220 + i as u8 }) } else { None }).collect()));
                 }
+                if mask != 0 && n <= 2 {
+                    // heap data of different lengths on the two sides: left trees hold 17 bytes (or 4097),
+                    // right trees 9 (or 255): where the shapes overlap a shorter heap datum replaces a longer one
+                    out.push((s.clone(), (0..n).map(|i| if mask >> i & 1 == 1 { Some(if base < 110 { 6 } else { 1 }) } else { None }).collect()));
+                    out.push((s.clone(), (0..n).map(|i| if mask >> i & 1 == 1 { Some(if base < 110 { 252 } else { 250 }) } else { None }).collect()));
+                }
             }
         }
     }
